@@ -141,7 +141,10 @@ class CoinSelector:
                     _) -> List[OutputEffectiveAmountEstimator]:
         """ Accumulate UTXOs at random until there is enough to cover the target. """
         target = self.target + self.cost_of_change
-        self.random.shuffle(txos, random=self.random.random)  # pylint: disable=deprecated-argument
+        # Fisher-Yates with the selector's own generator; Random.shuffle lost its `random` argument in Python 3.11
+        for i in reversed(range(1, len(txos))):
+            j = int(self.random.random() * (i + 1))
+            txos[i], txos[j] = txos[j], txos[i]
         selection = []
         amount = 0
         for coin in txos:
